@@ -57,6 +57,7 @@ def make(shape: Dict[str, Any]) -> Any:
         u_off = ctx.int('withdraw_offset', 0, shape.get('offset_max', 2000))
         todo.append((u_off, 'withdraw', None))
         done_items: List[int] = []
+        asked_at: List[Tuple[Any, Any]] = []
         withdrawn_at = None
         for _ in range(len(todo)):
             best = None
@@ -70,6 +71,7 @@ def make(shape: Dict[str, Any]) -> Any:
             off, kind, payload = todo[best]
             loop.advance_to(t0 + off)
             if kind == 'query':
+                asked_at.append((loop.now_ms, payload))
                 src_port = payload.get('port', 5353)
                 msg = mk_query(loop.now_ms, [Q(n, t, qu) for n, t, qu in payload['q']], [], ('10.0.0.9', src_port), truncated=payload.get('tc', False), data=f'q{best}'.encode())
                 if zc.registry.has_entries:  # as AsyncListener.datagram_received does
@@ -122,6 +124,18 @@ def make(shape: Dict[str, Any]) -> Any:
             ctx.check(sorted(set(got)) == sorted(withdrawn), f'goodbye carries {[x[:3] for x in got]} but must withdraw exactly {[x[:3] for x in sorted(withdrawn)]}')
             for r in g.records():
                 ctx.check(ident(r, kept) is None or ident(r, withdrawn) is not None, f'goodbye withdraws {r.name}/{r.type} which a still registered service uses')
+        # ---- what is still registered keeps being answered: a reply queued before the withdrawal loses only the withdrawn records
+        from vkit.responder import reference_answers
+
+        for q_at, payload in asked_at:
+            if payload.get('tc'):
+                continue  # (released by its hold timer: which registry state it sees depends on the draw)
+            for n, t, qu in payload['q']:
+                for spec, _ttl, _u, _adds in reference_answers([cat[k] for k in remaining], Q(n, t, qu), []):
+                    if spec.ident in withdrawn:
+                        continue
+                    hit = any(s.t >= q_at and any(r.ttl != 0 and ident(r, {spec.ident: spec}) is not None for r, _ in s.out.answers) for s in sends)
+                    ctx.check(hit, f'{spec.kind} of {spec.name} belongs to a service that is still registered and was asked for, but the reply lost it')
         final = withdrawn_at + 2 * UNREG
         for s in sends:
             if s.t > final:
@@ -162,6 +176,7 @@ QUICK = {
     'ptr-query-twice': sh(registry=['S1'], action='unregister:S1', queries=[PTRQ, PTRQ], offset_max=400),
     'quiet-recased-object': sh(registry=['S1'], action='unregister-recased:S1'),
     'ptr-query-recased-object': sh(registry=['S1', 'S3'], action='unregister-recased:S1', queries=[PTRQ]),
+    'address-query-shared-protected': sh(registry=['S1', 'S2'], action='unregister:S1', queries=[AQ], sighted=[('S1', 'A')]),
     'address-query-protected': sh(registry=['S1'], action='unregister:S1', queries=[AQ], sighted=[('S1', 'A'), ('S1', 'NSEC')]),
     'tc-query-pending': sh(registry=['S1'], action='unregister:S1', queries=[TCQ], offset_max=800),
     'tc-query-pending-shared': sh(registry=['S1', 'S2'], action='unregister:S1', queries=[TCQ], offset_max=800),
